@@ -56,7 +56,12 @@ def check(ctx):
         g = tuple((canon_ids(simp(c), lm), pol) for c, pol in site.fact.guards)
         return (canon_ids(site.rowbase, lm) if site.rowbase is not None else canon_ids(site.row, lm), g)
 
-    for kind in ("loss", "gain", "heat", "cool", "mod"):
+    # no store into the Jacobian table at all: the table is kept in a representation that is not understood (not "every derivative
+    # is missing")
+    table_known = any(s.array == "jacrhs" and s.kind != "init" for s in m.sites)
+    if not table_known:
+        ctx.unrec("R1", "jacrhs:table", (FILE, m.func.lineno), f"no store into the Jacobian table `{m.JACNAME}` was found: how the table is represented / filled is not understood")
+    for kind in ("loss", "gain", "heat", "cool", "mod") if table_known else ():
         r, j = rhs[kind], jac[kind]
         if not r and not j:
             ctx.missing("R1", f"rhs:{kind}", (FILE, m.func.lineno), f"no RHS site of kind `{kind}` found; see C01")
@@ -152,6 +157,17 @@ def check(ctx):
                   "jacrhs = ['0.0'] * n_eqns * n_eqns", found=show(v)[:120])
     else:
         ctx.missing("R4", "jacrhs-init", (FILE, m.func.lineno), f"expected one initialisation of jacrhs, found {len(init)}")
+    # a table of rows created by list multiplication (`[[c] * n] * n`) is ONE row object referenced n times: a term added to one
+    # equation's row shows up in every row
+    for n_ in ast.walk(m.func):
+        if isinstance(n_, ast.Assign) and isinstance(n_.value, ast.BinOp) and isinstance(n_.value.op, ast.Mult):
+            for lst in (n_.value.left, n_.value.right):
+                if isinstance(lst, ast.List) and len(lst.elts) == 1 and (isinstance(lst.elts[0], (ast.List, ast.ListComp))
+                                                                        or (isinstance(lst.elts[0], ast.BinOp) and isinstance(lst.elts[0].op, ast.Mult)
+                                                                            and any(isinstance(x, ast.List) for x in (lst.elts[0].left, lst.elts[0].right)))):
+                    ctx.bad("R4", f"rows-aliased:{ast.unparse(n_.targets[0])[:30]}", (FILE, n_.lineno),
+                            f"`{ast.unparse(n_)[:80]}` builds a table whose rows are one and the same list object: every store into one row is seen in all rows",
+                            expected="[[c] * n for _ in range(n)] (distinct rows) or the flat table [c] * n * n", found=ast.unparse(n_.value)[:80])
     _r5(ctx, m)
     _r4_templates(ctx)
 
@@ -240,56 +256,178 @@ def _pair(ctx, m, kind, rs, js):
                f"d/dy_col of {rs.text!r}: col over the factor list with multiplicity, term {js.text!r} with the column's factor removed from a fresh copy")
 
 
-def _r4_templates(ctx, rule_decode="R4", rule_omit="R6"):
+NROW = ("attr", ("attr", ("name", "ode"), "jac"), "nrow")
+JRHS = ("attr", ("attr", ("name", "ode"), "jac"), "rhs")
+_CSR_FIELDS = ("ode.jac.vals", "ode.jac.cols", "ode.jac.rows")
+
+
+def _own_items(items, stack=()):
+    """items of one loop body with their enclosing if-frames; nested loops are yielded but not entered"""
+    for x in items:
+        yield x, stack
+        if x[0] == "if":
+            yield from _own_items(x[2], stack + (("if+", x[1]),))
+            yield from _own_items(x[3], stack + (("if-", x[1]),))
+
+
+def _paths_in(e):
+    out = set()
+
+    def rec(x):
+        if isinstance(x, tuple):
+            p = J.path(x) if x and x[0] in ("name", "attr") else None
+            if p is not None:
+                out.add(p)
+            for y in x:
+                rec(y)
+    rec(e)
+    return out
+
+
+def dense_layout(tree, rel, cfg, fname, callee):
+    """How `fname` fills the dense matrix: the loops whose own body writes `callee([jmatrix,] ROW, COL) = VALUE;`, each as a record
+       {loop, line, form, row, col, val, var, guards, ...} with the expressions in canonical form (jmodel.canon: `{% set %}` names and
+       value macros expanded, `//` for `(/)|int`, `loop.index0` for `loop.index - 1`, `%` for `a - (a // n) * n`), where form is
+         "flat"    one loop over ode.jac.rhs itself: the entry at position p = loop.index0 belongs to (p // nrow, p % nrow)
+         "rows"    a loop over `ode.jac.rhs | batch(ode.jac.nrow)` (the rows) around a loop over the row: (outer index0, inner index0);
+                   in the record the outer loop's `loop` is spelled `loop^`
+         "csr"     a loop over the stored CSR entries (ode.jac.vals / cols)
+         "cut"     a loop over a filtered / sliced ode.jac.rhs (positions shift)
+         "other"   anything else"""
+    import re
+    items = J.canon_items(J.propagate_sets(J.flatten(tree, rel, cfg)))
+    sk = Skel(items)
+    infn = {id(it) for it, off in sk.items_in(fname)}
+    pat = re.compile(re.escape(callee) + r"\s*\(\s*(?:jmatrix\s*,\s*)?\x00(\d+)\x00\s*,\s*\x00(\d+)\x00\s*\)\s*=\s*\x00(\d+)\x00\s*;")
+    recs = []
+    for it, st in J.walk_items(items):
+        if it[0] != "for" or id(it) not in infn:
+            continue
+        own = [(x, g) for x, g in _own_items(it[3]) if x[0] in ("text", "out")]
+        txt = "".join(x[1] if x[0] == "text" else f"\x00{i}\x00" for i, (x, g) in enumerate(own))
+        mm = pat.search(txt)
+        if not mm:
+            continue
+        (rowe, _), (cole, _), (vale, vg) = (own[int(g)] for g in mm.groups())
+        rowe, cole, vale = rowe[1], cole[1], vale[1]
+        rec = {"loop": it, "line": it[5], "var": it[1], "row": rowe, "col": cole, "val": vale, "guards": list(vg), "form": "other", "body_text": txt}
+        parents = [f for f in st if f[0] == "for"]
+        base, fs = J.unfilter(it[2])
+        if it[2] == JRHS and it[7] is None:
+            rec["form"] = "flat"
+        elif base == JRHS or (base[0] == "item" and base[1] == JRHS):
+            names = [f[0] for f in fs]
+            rec["form"] = "flat" if it[7] is None and base == JRHS and all(n == "list" for n in names) else \
+                "cut" if it[7] is not None or base != JRHS or any(n in ("select", "reject", "selectattr", "rejectattr", "slice", "batch", "unique", "sort", "reverse") for n in names) else "other"
+        elif it[2][0] == "name" and parents and parents[-1][1] == it[2] and it[7] is None:
+            P = parents[-1]
+            pb, pfs = J.unfilter(P[2])
+            if pb == JRHS and P[7] is None and [f[0] for f in pfs] == ["batch"] and len(pfs[0][1]) == 1 and not pfs[0][2]:
+                rec["form"] = "rows"
+                rec["batch"] = pfs[0][1][0]
+                rec["outer"] = P
+                # names bound in the rows loop (before the inner loop) stand for expressions of THAT loop: its `loop` is written loop^
+                env = {}
+                for x, g in _own_items(P[3]):
+                    if x is it:
+                        break
+                    if x[0] == "set" and x[1][0] == "name" and not g:
+                        env[x[1][1]] = J.subst_names(x[2], {"loop": ("name", "loop^")})
+                    elif x[0] == "set":
+                        for n_ in J.names_of(x[1]):
+                            env.pop(n_, None)
+                for k_ in ("row", "col", "val"):
+                    rec[k_] = J.canon(J.subst_names(rec[k_], env))
+                # if-frames of the rows loop around the inner loop are conditions on whole rows
+                rec["outer_guards"] = [f for f in st[st.index(P) + 1:] if f[0] in ("if+", "if-")]
+        elif _paths_in(it[2]) & set(_CSR_FIELDS):
+            rec["form"] = "csr"
+        recs.append(rec)
+    return recs
+
+
+def _row_cursor(rec):
+    """The row expression of a CSR walk is a namespace attribute `ns.a` that the loop body only ever advances by `{% set ns.a = ns.a + 1 %}`
+    inside `{% if %}` arms (Jinja has no while): -> (ns.a, number of such advances, line) or None."""
+    r = rec["row"]
+    if not (r[0] == "attr" and r[1][0] == "name"):
+        return None
+    sets = []
+    for x, st in J.walk_items(rec["loop"][3]):
+        if x[0] == "set" and x[1] == r:
+            if any(f[0] == "for" for f in st) or not any(f[0] in ("if+", "if-") for f in st):
+                return None
+            v = J.canon(x[2])
+            if v not in (("bin", "+", r, ("const", 1)), ("bin", "+", ("const", 1), r)):
+                return None
+            sets.append(x)
+    return (r, len(sets), sets[0][3]) if sets else None
+
+
+def _r4_templates(ctx, rule_decode="R4", rule_omit="R6", sent=None):
+    """dense / odeint decode of the flattened Jacobian table (C02.R4 + R6; adopted as C03.R3 + R2).  `sent`: dict that receives the
+    sentinel literal each template compares with."""
     n = 0
+    idx0 = ("attr", ("name", "loop"), "index0")
+    out0 = ("attr", ("name", "loop^"), "index0")
     for label, rel, cfg, fname, callee in (("cvode/dense", DENSE, {"general.method": "dense"}, "Jac", "IJth"),
                                            ("odeint", ODEINT, {}, "Jac::operator()", "j")):
         ctx.saw(rel)
-        # `{% set %}` variables are read as the expressions they stand for (row / col / neqns hoisted into variables, in or before the loop)
-        items = J.propagate_sets(J.flatten(ctx.tree, rel, cfg))
-        sk = Skel(items)
-        loops = [(it, off) for it, off in sk.items_in(fname) if it[0] == "for" and J.path(J.unfilter(it[2])[0]) == "ode.jac.rhs"]
+        recs = dense_layout(ctx.tree, rel, cfg, fname, callee)
         key = f"{label}:{fname}:for ode.jac.rhs"
-        if len(loops) != 1:
-            (ctx.bad if loops else ctx.missing)(rule_decode, key, (rel, 0), f"{fname} iterates ode.jac.rhs {len(loops)} times, expected once")
+        if len(recs) != 1:
+            (ctx.bad if recs else ctx.missing)(rule_decode, key, (rel, 0), f"{fname} has {len(recs)} loops writing `{callee}(.., row, col) = value;`, expected one")
             continue
-        it = loops[0][0]
-        if it[2] != ("attr", ("attr", ("name", "ode"), "jac"), "rhs") or it[7] is not None:
-            ctx.bad(rule_decode, key, (rel, it[5]), f"loop over ode.jac.rhs is filtered/sliced: {J.show(it[2])}")
-            continue
-        var = it[1]
-        # the text between outputs tells the argument positions: IJth(jmatrix, <row>, <col>) = <val>;
-        flat = []
-        for x, st in J.walk_items(it[3]):
-            if x[0] in ("text", "out"):
-                flat.append(x)
-        txt = "".join(x[1] if x[0] == "text" else f"\x00{flat.index(x)}\x00" for x in flat)
-        import re
-        pat = re.compile(re.escape(callee) + r"\s*\(\s*(?:jmatrix\s*,\s*)?\x00(\d+)\x00\s*,\s*\x00(\d+)\x00\s*\)\s*=\s*\x00(\d+)\x00\s*;")
-        mm = pat.search(txt)
-        if not mm:
-            ctx.bad(rule_decode, key, (rel, it[5]), f"no `{callee}(.., row, col) = value;` assignment found in the loop body", found=txt.replace("\x00", "#")[:120])
-            continue
-        rowe, cole, vale = (flat[int(g)][1] for g in mm.groups())
-        nrow = ("attr", ("attr", ("name", "ode"), "jac"), "nrow")
-        idx0 = ("attr", ("name", "loop"), "index0")
-        row_ok = rowe == ("filter", "int", ("bin", "/", idx0, nrow), (), ()) or rowe == ("bin", "//", idx0, nrow)
-        col_ok = cole == ("bin", "%", idx0, nrow)
-        ctx.check(row_ok, rule_decode, f"{label}:row-decode", (rel, it[5]), "row = (loop.index0 / ode.jac.nrow) | int",
-                  expected="(loop.index0/ode.jac.nrow)|int", found=J.show(rowe))
-        ctx.check(col_ok, rule_decode, f"{label}:col-decode", (rel, it[5]), "col = loop.index0 % ode.jac.nrow",
-                  expected="loop.index0 % ode.jac.nrow", found=J.show(cole))
-        base, fs = J.unfilter(vale)
-        ctx.check(base == var and all(f[0] == "stmwrap" for f in fs), rule_decode, f"{label}:value", (rel, it[5]),
-                  "the assigned value is the loop's own entry through whitespace-only filters", found=J.show(vale))
-        # R6 (template side): omitted iff == sentinel
-        conds = [st for x, st in J.walk_items(it[3]) if x is flat[int(mm.group(3))]]
-        guards = [g for g in (conds[0] if conds else ()) if g[0] in ("if+", "if-")]
-        want = ("cmp", var, (("ne", ("const", "0.0")),))
-        g_ok = len(guards) == 1 and guards[0][0] == "if+" and guards[0][1] == want
-        ctx.check(g_ok, rule_omit, f"{label}:omit-iff-sentinel", (rel, it[5]), "an entry is skipped iff it equals the sentinel '0.0'",
-                  expected='{% if r != "0.0" %}', found="; ".join(J.show(g[1]) for g in guards))
+        rec = recs[0]
         n += 1
+        it, var, line = rec["loop"], rec["var"], rec["line"]
+        if rec["form"] == "cut":
+            ctx.bad(rule_decode, key, (rel, line), f"loop over ode.jac.rhs is filtered/sliced: {J.show(it[2])}")
+            continue
+        if rec["form"] == "csr":
+            cur = _row_cursor(rec)
+            if cur is not None:
+                ctx.bad(rule_decode, f"{label}:row-cursor", (rel, cur[2]),
+                        f"the dense matrix is filled by walking the stored CSR entries ({J.show(it[2])}) with the row kept in `{J.show(cur[0])}`, which an "
+                        f"`{{% if %}}` advances by at most {cur[1]} per entry: after two or more consecutive empty rows (species in no reaction) the cursor lags "
+                        "behind and entries are assigned to the wrong row",
+                        expected="row = position // ode.jac.nrow over ode.jac.rhs (or a cursor advanced past EVERY exhausted row)", found=f"{J.show(cur[0])} += 1 under if")
+            else:
+                ctx.unrec(rule_decode, key, (rel, line), f"the dense matrix is filled from the CSR arrays ({J.show(it[2])}); the row reconstruction is not understood")
+            continue
+        if rec["form"] == "other":
+            ctx.unrec(rule_decode, key, (rel, line), f"the loop writing `{callee}(..)` iterates {J.show(it[2])}: not ode.jac.rhs in a form that is understood")
+            continue
+        rowe, cole, vale = rec["row"], rec["col"], rec["val"]
+        if rec["form"] == "flat":
+            want_row, want_col = ("bin", "//", idx0, NROW), ("bin", "%", idx0, NROW)
+            texts = ("row = (loop.index0 / ode.jac.nrow) | int", "col = loop.index0 % ode.jac.nrow")
+        else:
+            # rows of ode.jac.nrow consecutive entries: entry c of row r is ode.jac.rhs[r * nrow + c]
+            ctx.check(J.canon(rec["batch"]) == NROW, rule_decode, f"{label}:row-length", (rel, line), "the table is cut into rows of ode.jac.nrow entries",
+                      expected="batch(ode.jac.nrow)", found=J.show(rec["batch"]))
+            want_row, want_col = out0, idx0
+            texts = ("row = position of the row in ode.jac.rhs | batch(nrow)", "col = position of the entry in its row")
+        ctx.check(rowe == want_row, rule_decode, f"{label}:row-decode", (rel, line), texts[0], expected=J.show(want_row), found=J.show(rowe))
+        ctx.check(cole == want_col, rule_decode, f"{label}:col-decode", (rel, line), texts[1], expected=J.show(want_col), found=J.show(cole))
+        base, fs = J.unfilter(vale)
+        ctx.check(base == var and all(f[0] == "stmwrap" for f in fs), rule_decode, f"{label}:value", (rel, line),
+                  "the assigned value is the loop's own entry through whitespace-only filters", found=J.show(vale))
+        # R6 (template side): omitted iff == sentinel, however the test is spelled (`!=`, `==` with the arms swapped, `not`, `is ne`)
+        guards = [J.canon_test(g[1], g[0] == "if+") for g in rec["guards"]] + [J.canon_test(g[1], g[0] == "if+") for g in rec.get("outer_guards", [])]
+        okey = f"{label}:omit-iff-sentinel"
+        lit = None
+        if len(guards) == 1 and guards[0][0][0] == "cmp" and guards[0][0][1] == var and len(guards[0][0][2]) == 1 and guards[0][0][2][0][0] == "eq" \
+                and guards[0][0][2][0][1][0] == "const":
+            lit = guards[0][0][2][0][1][1]
+            if sent is not None:
+                sent[(f"{label.split('/')[-1]} template", rel, line)] = lit
+            ctx.check(lit == "0.0" and guards[0][1] is False, rule_omit, okey, (rel, line), "an entry is skipped iff it equals the sentinel '0.0'",
+                      expected='{% if r != "0.0" %}', found=("" if guards[0][1] is False else "assigned only if ") + J.show(guards[0][0]))
+        elif not guards:
+            ctx.ok(rule_omit, okey, (rel, line), "every entry is assigned (none is omitted)")
+        else:
+            ctx.unrec(rule_omit, okey, (rel, line), "the condition under which an entry is assigned is not understood: " + "; ".join(J.show(g[0]) for g in guards))
     ctx.floor(rule_decode, "dense-layout templates", n, 2)
 
 
@@ -357,8 +495,21 @@ def _r5(ctx, m):
         }
         for fld, (pred, desc) in want.items():
             a = args.get(fld)
-            ctx.check(a is not None and bool(pred(simp(a))), "R5", f"Jacobian.{fld}", (FILE, jcall[1]),
-                      f"field `{fld}` receives {desc}", expected=desc, found=show(simp(a))[:100] if a is not None else "missing")
+            sa_ = simp(a) if a is not None else None
+            good = a is not None and bool(pred(sa_))
+            # positive evidence of a mix-up: the field is missing, receives what belongs to ANOTHER field, or a count taken before the
+            # scan; a value whose provenance is not understood is "cannot decide"
+            other = [g for g, (p2, _) in want.items() if g != fld and a is not None and bool(p2(sa_))]
+            early = fld == "nnz" and a is not None and ((sa_[0] == "call" and sa_[1] == ("global", "len")) or sa_ == ("const", 0))
+            if fld in ("nnz", "rows", "cols", "vals") and not good and a is not None and (counter is None and measured is None or not all(k in roles for k in ("rows", "cols", "vals"))):
+                # the CSR lists are not built by the scan this rule knows: which value plays which role is C03.R1's "cannot analyse"
+                ctx.unrec("R5", f"Jacobian.{fld}", (FILE, jcall[1]), f"field `{fld}` receives `{show(sa_)[:100]}`; the CSR construction is not recognised, so its role is not decided")
+                continue
+            if good or a is None or other or early or sa_[0] in ("acc", "const", "list"):
+                ctx.check(good, "R5", f"Jacobian.{fld}", (FILE, jcall[1]),
+                          f"field `{fld}` receives {desc}", expected=desc, found=show(sa_)[:100] if a is not None else "missing")
+            else:
+                ctx.unrec("R5", f"Jacobian.{fld}", (FILE, jcall[1]), f"field `{fld}` receives `{show(sa_)[:100]}`: not traced to {desc}")
     if ocall is None:
         ctx.missing("R5", "ODEContent(...)", (FILE, m.func.lineno), "return ODEContent(...) not found")
     else:
@@ -382,24 +533,73 @@ def _r5(ctx, m):
             a = args.get(fld)
             ctx.check(a is not None and bool(pred(simp(a))), "R5", f"ODEContent.{fld}", (FILE, ocall[1]),
                       f"field `{fld}` receives {desc}", expected=desc, found=show(simp(a))[:100] if a is not None else "missing")
-    # --- RenormContent
-    fn = pkg.method("TemplateLoader", "_prepare_renorm_content")
+    # --- RenormContent: by role -- `factor` holds one entry per species, `matrix` one per (element, element) pair, whichever way the
+    #     lists are filled (nested loops, itertools.product, comprehensions, helper methods put back by pymodel.expanded)
+    fn = pkg.expanded("TemplateLoader", "_prepare_renorm_content")
     ctx.saw(FILE, "TemplateLoader._prepare_renorm_content")
     rf = Flow(fn, FILE)
-    depth = {}
-    for f in rf.facts:
-        if f.kind == "append" and f.target != "terms":
-            depth[f.target] = len(f.loops)
+    rparams = [a_.arg for a_ in fn.args.args if a_.arg != "self"]
+    rni = ("param", rparams[0]) if rparams else None
+    SPECS, ELEMS = ("attr", rni, "species"), ("attr", rni, "elements")
+
+    def domains(it):
+        """the base sequences one iteration of `it` stands for: [S] for a position-preserving view of S (enumerate, zip of views of
+        S, comprehension over S), [A, B] for product(A, B); None = not understood"""
+        from ..valueflow import seq_base
+        it = simp(it)
+        if it[0] == "call" and it[1] in (("global", "enumerate"), ("global", "list"), ("global", "tuple"), ("global", "tqdm")) and it[2]:
+            return domains(it[2][0])
+        if it[0] == "call" and it[1] == ("global", "zip") and it[2] and not it[3]:
+            ds = [domains(x) for x in it[2]]
+            return ds[0] if all(d is not None and d == ds[0] for d in ds) else None
+        if it[0] == "call" and it[1] in (("global", "product"), ("attr", ("global", "itertools"), "product")) and it[2] and not it[3]:
+            out = []
+            for x in it[2]:
+                d = domains(x)
+                if d is None:
+                    return None
+                out += d
+            return out
+        b = seq_base(it)
+        return [b] if b is not None else None
+
+    def entry_domain(a):
+        if a[0] == "acc":
+            apps = [f for f in rf.facts if f.kind == "append" and f.target == a[1]]
+            # (that exactly one entry is appended per iteration is C16.R1's subject; here the loops tell which list this is)
+            if not apps or len({tuple(l.id for l in f_.loops) for f_ in apps}) != 1:
+                return None
+            out = []
+            for lp in apps[0].loops:
+                d = domains(lp.iter)
+                if d is None:
+                    return None
+                out += d
+            return out
+        if a[0] == "comp" and a[1] == "list":
+            out = []
+            for tg, it, ifs in a[3]:
+                d = domains(it)
+                if d is None or ifs:
+                    return None
+                out += d
+            return out
+        return None
     for f in rf.facts:
         if f.kind == "return" and ctor(f.value, "RenormContent"):
             args = _bind_args(dataclass_fields(pkg, "TemplateLoader.RenormContent"), ctor(f.value, "RenormContent"))
-            for fld, d in (("factor", 1), ("matrix", 2)):
+            for fld, want, desc in (("factor", [SPECS], "one entry per species"), ("matrix", [ELEMS, ELEMS], "one entry per (element, element) pair")):
                 a = args.get(fld)
                 a = simp(a) if a is not None else None
-                # one entry per iteration of d nested loops: filled by append inside the loops, or a comprehension with d generators
-                ok = a is not None and ((a[0] == "acc" and depth.get(a[1]) == d) or (a[0] == "comp" and a[1] == "list" and len(a[3]) == d))
-                ctx.check(ok, "R5", f"RenormContent.{fld}", (FILE, f.line),
-                          f"field `{fld}` receives the list filled inside {d} nested loop(s)", found=show(a) if a else "missing")
+                dom = entry_domain(a) if a is not None else None
+                key = f"RenormContent.{fld}"
+                if a is None:
+                    ctx.bad("R5", key, (FILE, f.line), f"field `{fld}` is not passed", found="missing")
+                elif dom is None:
+                    ctx.unrec("R5", key, (FILE, f.line), f"how the list passed as `{fld}` is filled is not understood: {show(a)[:100]}")
+                else:
+                    ctx.check(dom == want, "R5", key, (FILE, f.line), f"field `{fld}` receives the list with {desc}",
+                              expected=" x ".join(show(w) for w in want), found=" x ".join(show(w) for w in dom) or "a single value")
     # --- NetworkInfo (2 sites)
     fields = dataclass_fields(pkg, "NetworkInfo")
     n = 0
@@ -413,21 +613,61 @@ def _r5(ctx, m):
         for c in ast.walk(fn):
             if isinstance(c, ast.Call) and ast.unparse(c.func) == "NetworkInfo":
                 n += 1
+                if any(isinstance(a, ast.Starred) for a in c.args) or any(k.arg is None for k in c.keywords):
+                    ctx.unrec("R5", f"{cls}.{meth}:NetworkInfo(*..)", (file, c.lineno), "NetworkInfo is called with unpacked arguments: which value reaches which field is not decided")
+                    continue
                 bound = dict(zip(fields, c.args))
                 bound.update({k.arg: k.value for k in c.keywords})
+                # a local bound once to an expression stands for that expression (`species = network.species` .. NetworkInfo(.., species, ..))
+                once = {}
+                for st in ast.walk(fn):
+                    if isinstance(st, ast.Assign) and len(st.targets) == 1 and isinstance(st.targets[0], ast.Name):
+                        once.setdefault(st.targets[0].id, []).append(st.value)
                 for fld in fields:
                     a = bound.get(fld)
+                    if isinstance(a, ast.Name) and len(once.get(a.id, [])) == 1:
+                        a = once[a.id][0]
                     src = ast.unparse(a) if a is not None else "missing"
                     ok = a is not None and (src == f"network.{fld}" or src.startswith(f"network.{fld} or "))
                     if fld == "reactions" and src == "network.reaction_list":
                         ok = True      # the same reactions; whether the dummy fill-in is counted is C03.R4 (sizes)
-                    ctx.check(ok, "R5", f"{cls}.{meth}:NetworkInfo.{fld}", (file, c.lineno),
-                              f"field `{fld}` receives network.{fld}", expected=f"network.{fld}", found=src[:80])
+                    key = f"{cls}.{meth}:NetworkInfo.{fld}"
+                    other = [g for g in fields if g != fld and (src == f"network.{g}" or src.startswith(f"network.{g} or "))]
+                    if ok or a is None or other:
+                        # positive evidence of a mix-up: the field is missing, or it receives ANOTHER field's sequence
+                        ctx.check(ok, "R5", key, (file, c.lineno), f"field `{fld}` receives network.{fld}", expected=f"network.{fld}", found=src[:80])
+                    else:
+                        ctx.unrec("R5", key, (file, c.lineno), f"field `{fld}` receives `{src[:80]}`: not read as an attribute of the network")
     ctx.floor("R5", "NetworkInfo(...) call sites", n, 2)
 
 
 T = FILE
 MUTANTS = [
+    {"name": "jacobian-rows-created-by-list-multiplication", "edits": [
+        {"file": T, "old": "from pathlib import Path\n", "new": "from itertools import chain\nfrom pathlib import Path\n"},
+        {"file": T, "old": '        jacrhs = ["0.0"] * n_eqns * n_eqns\n', "new": '        jacrows = [["0.0"] * n_eqns] * n_eqns\n'},
+        {"file": T, "old": "jacrhs[specidx * n_eqns + ri] += term", "new": "jacrows[specidx][ri] += term", "count": 2},
+        {"file": T, "old": "jacrhs[sidx * n_eqns + didx] += term", "new": "jacrows[sidx][didx] += term"},
+        {"file": T, "old": "jacrhs[n_spec * n_eqns + ri] += term", "new": "jacrows[n_spec][ri] += term", "count": 2},
+        {"file": T, "old": '            for si in range(n_spec):\n                jacrhs[n_spec * n_eqns + si] = (\n                    "0.0"\n                    if jacrhs[n_spec * n_eqns + si] == "0.0"\n                    else f"(gamma - 1.0) * ( {jacrhs[n_spec * n_eqns + si]} ) / kerg / npar"\n                )\n',
+         "new": '            thermalrow = jacrows[n_spec]\n            for si in range(n_spec):\n                if thermalrow[si] != "0.0":\n                    thermalrow[si] = f"(gamma - 1.0) * ( {thermalrow[si]} ) / kerg / npar"\n'},
+        {"file": T, "old": '        fex = [f"{l} = {r};" for l, r in zip(lhs, rhs)]\n', "new": '        jacrhs = list(chain.from_iterable(jacrows))\n        fex = [f"{l} = {r};" for l, r in zip(lhs, rhs)]\n'}], "rules": ["R4"]},
+    {"name": "dict-keyed-jacobian-modifier-term-transposed", "edits": [
+        {"file": T, "old": '        jacrhs = ["0.0"] * n_eqns * n_eqns\n', "new": '        jacterms = {}\n'},
+        {"file": T, "old": "jacrhs[specidx * n_eqns + ri] += term", "new": 'jacterms[(specidx, ri)] = jacterms.get((specidx, ri), "0.0") + term', "count": 2},
+        {"file": T, "old": "jacrhs[sidx * n_eqns + didx] += term", "new": 'jacterms[(didx, sidx)] = jacterms.get((didx, sidx), "0.0") + term'},
+        {"file": T, "old": "jacrhs[n_spec * n_eqns + ri] += term", "new": 'jacterms[(n_spec, ri)] = jacterms.get((n_spec, ri), "0.0") + term', "count": 2},
+        {"file": T, "old": '            for si in range(n_spec):\n                jacrhs[n_spec * n_eqns + si] = (\n                    "0.0"\n                    if jacrhs[n_spec * n_eqns + si] == "0.0"\n                    else f"(gamma - 1.0) * ( {jacrhs[n_spec * n_eqns + si]} ) / kerg / npar"\n                )\n',
+         "new": '            for si in range(n_spec):\n                if (n_spec, si) in jacterms:\n                    jacterms[(n_spec, si)] = f"(gamma - 1.0) * ( {jacterms[(n_spec, si)]} ) / kerg / npar"\n'},
+        {"file": T, "old": '        fex = [f"{l} = {r};" for l, r in zip(lhs, rhs)]\n', "new": '        jacrhs = [jacterms.get((row, col), "0.0") for row in range(n_eqns) for col in range(n_eqns)]\n        fex = [f"{l} = {r};" for l, r in zip(lhs, rhs)]\n'}], "rules": ["R1"]},
+    {"name": "thermal-wrap-slice-walk-stores-one-column-off", "file": T,
+     "old": '            for si in range(n_spec):\n                jacrhs[n_spec * n_eqns + si] = (\n                    "0.0"\n                    if jacrhs[n_spec * n_eqns + si] == "0.0"\n                    else f"(gamma - 1.0) * ( {jacrhs[n_spec * n_eqns + si]} ) / kerg / npar"\n                )\n',
+     "new": '            tstart = n_spec * n_eqns\n            for si, entry in enumerate(jacrhs[tstart : tstart + n_spec]):\n                if entry != "0.0":\n                    jacrhs[tstart + si + 1] = f"(gamma - 1.0) * ( {entry} ) / kerg / npar"\n', "rules": ["R3"]},
+    {'name': 'dense-filled-from-csr-with-row-cursor-advanced-by-if', 'file': DENSE, 'old': '    {% for r in ode.jac.rhs -%}\n    {% set neqns = ode.jac.nrow -%}\n    {% if r != "0.0" -%}\n    IJth(jmatrix, {{ (loop.index0/neqns) | int }}, {{ loop.index0%neqns }}) = {{ r | stmwrap(80, 24)}};\n    {% endif -%}\n    {% endfor %}\n', 'new': '    {% set cur = namespace(row=0) -%}\n    {% for col, val in zip(ode.jac.cols, ode.jac.vals) -%}\n    {% if loop.index0 >= ode.jac.rows[cur.row + 1] -%}\n    {% set cur.row = cur.row + 1 -%}\n    {% endif -%}\n    IJth(jmatrix, {{ cur.row }}, {{ col }}) = {{ val | stmwrap(80, 24)}};\n    {% endfor %}\n', 'rules': ['R4']},
+    {'name': 'odeint-rows-by-batch-transposed', 'file': ODEINT, 'old': '    {% for r in ode.jac.rhs -%}\n    {% set neqns = ode.jac.nrow -%}\n    {% if r != "0.0" -%}\n    j({{ (loop.index0/neqns) | int }}, {{ loop.index0%neqns }}) = {{ r | stmwrap(80, 24)}};\n    {% endif -%}\n    {% endfor %}\n', 'new': '    {% for rowterms in ode.jac.rhs | batch(ode.jac.nrow) -%}\n    {% set irow = loop.index0 -%}\n    {% for r in rowterms -%}\n    {% if r != "0.0" -%}\n    j({{ loop.index0 }}, {{ irow }}) = {{ r | stmwrap(80, 24)}};\n    {% endif -%}\n    {% endfor -%}\n    {% endfor %}\n', 'rules': ['R4']},
+    {'name': 'dense-decode-from-loop-index', 'file': DENSE, 'old': 'IJth(jmatrix, {{ (loop.index0/neqns) | int }}, {{ loop.index0%neqns }})', 'new': 'IJth(jmatrix, {{ (loop.index/neqns) | int }}, {{ loop.index%neqns }})', 'rules': ['R4']},
+    {'name': 'memo-dict-read-with-the-row-key', 'file': T, 'old': '            for specidx in rspecidx:\n                # df/dx, remove the dependency for current reactant\n                for ri in rspecidx:\n                    rsymcopy = rsym.copy()\n                    rsymcopy.remove(y[ri])\n                    term = f" - {\'*\'.join([f\'{rate_sym}[{rl}]\', *rsymcopy])}"\n                    jacrhs[specidx * n_eqns + ri] += term\n            for specidx in pspecidx:\n                for ri in rspecidx:\n                    rsymcopy = rsym.copy()\n                    rsymcopy.remove(y[ri])\n                    term = f" + {\'*\'.join([f\'{rate_sym}[{rl}]\', *rsymcopy])}"\n                    jacrhs[specidx * n_eqns + ri] += term\n', 'new': '            dflux = {}\n            for ri in rspecidx:\n                if ri not in dflux:\n                    rsymcopy = rsym.copy()\n                    rsymcopy.remove(y[ri])\n                    dflux[ri] = "*".join([f"{rate_sym}[{rl}]", *rsymcopy])\n            for specidx in rspecidx:\n                rowstart = specidx * n_eqns\n                for ri in rspecidx:\n                    jacrhs[rowstart + ri] += " - " + dflux[ri]\n            for specidx in pspecidx:\n                rowstart = specidx * n_eqns\n                for ri in rspecidx:\n                    jacrhs[rowstart + ri] += " + " + dflux[specidx]\n', 'rules': ['R1']},
+    {'name': 'signed-chain-gain-rows-taken-from-reactants', 'edits': [{'file': T, 'old': 'from pathlib import Path\n', 'new': 'from itertools import chain, repeat\nfrom pathlib import Path\n'}, {'file': T, 'old': '            for specidx in rspecidx:\n                # df/dx, remove the dependency for current reactant\n                for ri in rspecidx:\n                    rsymcopy = rsym.copy()\n                    rsymcopy.remove(y[ri])\n                    term = f" - {\'*\'.join([f\'{rate_sym}[{rl}]\', *rsymcopy])}"\n                    jacrhs[specidx * n_eqns + ri] += term\n            for specidx in pspecidx:\n                for ri in rspecidx:\n                    rsymcopy = rsym.copy()\n                    rsymcopy.remove(y[ri])\n                    term = f" + {\'*\'.join([f\'{rate_sym}[{rl}]\', *rsymcopy])}"\n                    jacrhs[specidx * n_eqns + ri] += term\n', 'new': '            changes = list(chain(zip(repeat(" - "), rspecidx), zip(repeat(" + "), rspecidx)))\n            for sign, specidx in changes:\n                for ri in rspecidx:\n                    rsymcopy = rsym.copy()\n                    rsymcopy.remove(y[ri])\n                    jacrhs[specidx * n_eqns + ri] += sign + "*".join([f"{rate_sym}[{rl}]", *rsymcopy])\n'}], 'rules': ['R1']},
     {"name": "helper-function-removes-from-the-shared-factor-list", "edits": [
         {"file": T, "old": '    def _prepare_ode_content(\n', "new": '    @staticmethod\n    def _minus_one(symbols, sym):\n        rest = symbols\n        rest.remove(sym)\n        return rest\n\n    def _prepare_ode_content(\n'},
         {"file": T, "old": '            for specidx in rspecidx:\n                # df/dx, remove the dependency for current reactant\n                for ri in rspecidx:\n                    rsymcopy = rsym.copy()\n                    rsymcopy.remove(y[ri])\n                    term = f" - {\'*\'.join([f\'{rate_sym}[{rl}]\', *rsymcopy])}"\n                    jacrhs[specidx * n_eqns + ri] += term\n            for specidx in pspecidx:\n                for ri in rspecidx:\n                    rsymcopy = rsym.copy()\n                    rsymcopy.remove(y[ri])\n                    term = f" + {\'*\'.join([f\'{rate_sym}[{rl}]\', *rsymcopy])}"\n                    jacrhs[specidx * n_eqns + ri] += term\n',
@@ -460,6 +700,40 @@ MUTANTS = [
     {"name": "skip-catalyst-jac", "file": T, "old": "            for specidx in pspecidx:\n                for ri in rspecidx:\n                    rsymcopy = rsym.copy()", "new": "            for specidx in pspecidx:\n                if specidx in rspecidx:\n                    continue\n                for ri in rspecidx:\n                    rsymcopy = rsym.copy()", "rules": ["R1"]},
 ]
 BENIGN = [
+    {"name": "jacobian-kept-as-a-list-of-rows-flattened-once", "edits": [
+        {"file": T, "old": "from pathlib import Path\n", "new": "from itertools import chain\nfrom pathlib import Path\n"},
+        {"file": T, "old": '        jacrhs = ["0.0"] * n_eqns * n_eqns\n', "new": '        jacrows = [["0.0"] * n_eqns for _ in range(n_eqns)]\n'},
+        {"file": T, "old": "jacrhs[specidx * n_eqns + ri] += term", "new": "jacrows[specidx][ri] += term", "count": 2},
+        {"file": T, "old": "jacrhs[sidx * n_eqns + didx] += term", "new": "jacrows[sidx][didx] += term"},
+        {"file": T, "old": "jacrhs[n_spec * n_eqns + ri] += term", "new": "jacrows[n_spec][ri] += term", "count": 2},
+        {"file": T, "old": '            for si in range(n_spec):\n                jacrhs[n_spec * n_eqns + si] = (\n                    "0.0"\n                    if jacrhs[n_spec * n_eqns + si] == "0.0"\n                    else f"(gamma - 1.0) * ( {jacrhs[n_spec * n_eqns + si]} ) / kerg / npar"\n                )\n',
+         "new": '            thermalrow = jacrows[n_spec]\n            for si in range(n_spec):\n                if thermalrow[si] != "0.0":\n                    thermalrow[si] = f"(gamma - 1.0) * ( {thermalrow[si]} ) / kerg / npar"\n'},
+        {"file": T, "old": '        fex = [f"{l} = {r};" for l, r in zip(lhs, rhs)]\n', "new": '        jacrhs = list(chain.from_iterable(jacrows))\n        fex = [f"{l} = {r};" for l, r in zip(lhs, rhs)]\n'}]},
+    {"name": "jacobian-terms-kept-in-a-dict-keyed-by-row-and-column", "edits": [
+        {"file": T, "old": '        jacrhs = ["0.0"] * n_eqns * n_eqns\n', "new": '        jacterms = {}\n'},
+        {"file": T, "old": "jacrhs[specidx * n_eqns + ri] += term", "new": 'jacterms[(specidx, ri)] = jacterms.get((specidx, ri), "0.0") + term', "count": 2},
+        {"file": T, "old": "jacrhs[sidx * n_eqns + didx] += term", "new": 'jacterms[(sidx, didx)] = jacterms.get((sidx, didx), "0.0") + term'},
+        {"file": T, "old": "jacrhs[n_spec * n_eqns + ri] += term", "new": 'jacterms[(n_spec, ri)] = jacterms.get((n_spec, ri), "0.0") + term', "count": 2},
+        {"file": T, "old": '            for si in range(n_spec):\n                jacrhs[n_spec * n_eqns + si] = (\n                    "0.0"\n                    if jacrhs[n_spec * n_eqns + si] == "0.0"\n                    else f"(gamma - 1.0) * ( {jacrhs[n_spec * n_eqns + si]} ) / kerg / npar"\n                )\n',
+         "new": '            for si in range(n_spec):\n                if (n_spec, si) in jacterms:\n                    jacterms[(n_spec, si)] = f"(gamma - 1.0) * ( {jacterms[(n_spec, si)]} ) / kerg / npar"\n'},
+        {"file": T, "old": '        fex = [f"{l} = {r};" for l, r in zip(lhs, rhs)]\n', "new": '        jacrhs = [jacterms.get((row, col), "0.0") for row in range(n_eqns) for col in range(n_eqns)]\n        fex = [f"{l} = {r};" for l, r in zip(lhs, rhs)]\n'}]},
+    {"name": "thermal-wrap-walks-the-row-slice-with-enumerate", "file": T,
+     "old": '            for si in range(n_spec):\n                jacrhs[n_spec * n_eqns + si] = (\n                    "0.0"\n                    if jacrhs[n_spec * n_eqns + si] == "0.0"\n                    else f"(gamma - 1.0) * ( {jacrhs[n_spec * n_eqns + si]} ) / kerg / npar"\n                )\n',
+     "new": '            tstart = n_spec * n_eqns\n            for si, entry in enumerate(jacrhs[tstart : tstart + n_spec]):\n                if entry != "0.0":\n                    jacrhs[tstart + si] = f"(gamma - 1.0) * ( {entry} ) / kerg / npar"\n'},
+    {"name": "dense-decode-in-one-tuple-set", "file": DENSE, "old": "IJth(jmatrix, {{ (loop.index0/neqns) | int }}, {{ loop.index0%neqns }})",
+     "new": "{% set irow, icol = loop.index0 // neqns, loop.index0 % neqns -%}IJth(jmatrix, {{ irow }}, {{ icol }})"},
+    {"name": "sentinel-as-named-class-and-module-constant", "edits": [
+        {"file": T, "old": "    @dataclass\n    class GeneralInfo:\n", "new": "    _ZERO = \"0.0\"\n\n    @dataclass\n    class GeneralInfo:\n"},
+        {"file": T, "old": "\nclass TemplateLoader:\n", "new": "\n_NO_TERM = \"0.0\"\n\n\nclass TemplateLoader:\n"},
+        {"file": T, "old": "        jacrhs = [\"0.0\"] * n_eqns * n_eqns", "new": "        jacrhs = [self._ZERO] * n_eqns * n_eqns"},
+        {"file": T, "old": "                    \"0.0\"\n                    if jacrhs[n_spec * n_eqns + si] == \"0.0\"", "new": "                    _NO_TERM\n                    if jacrhs[n_spec * n_eqns + si] == TemplateLoader._ZERO"},
+        {"file": T, "old": "                if elem != \"0.0\":", "new": "                if elem != self._ZERO:"},
+        {"file": T, "old": "pattern = [0 if j == \"0.0\" else 1 for j in jacrhs]", "new": "pattern = [0 if j == _NO_TERM else 1 for j in jacrhs]"}]},
+    {'name': 'dense-decode-index-minus-one-floordiv-remainder-by-subtraction', 'file': DENSE, 'old': '    {% for r in ode.jac.rhs -%}\n    {% set neqns = ode.jac.nrow -%}\n    {% if r != "0.0" -%}\n    IJth(jmatrix, {{ (loop.index0/neqns) | int }}, {{ loop.index0%neqns }}) = {{ r | stmwrap(80, 24)}};\n    {% endif -%}\n    {% endfor %}\n', 'new': '    {% set neqns = ode.jac.nrow -%}\n    {% for r in ode.jac.rhs -%}\n    {% if r != "0.0" -%}\n    {% set flat = loop.index - 1 -%}\n    IJth(jmatrix, {{ flat // neqns }}, {{ flat - neqns * (flat // neqns) }}) = {{ r | stmwrap(80, 24)}};\n    {% endif -%}\n    {% endfor %}\n'},
+    {'name': 'odeint-sentinel-test-swapped-arms', 'file': ODEINT, 'old': '    {% for r in ode.jac.rhs -%}\n    {% set neqns = ode.jac.nrow -%}\n    {% if r != "0.0" -%}\n    j({{ (loop.index0/neqns) | int }}, {{ loop.index0%neqns }}) = {{ r | stmwrap(80, 24)}};\n    {% endif -%}\n    {% endfor %}\n', 'new': '    {% for r in ode.jac.rhs -%}\n    {% set neqns = ode.jac.nrow -%}\n    {% if r == "0.0" -%}\n    {% else -%}\n    j({{ (loop.index0/neqns) | int }}, {{ loop.index0%neqns }}) = {{ r | stmwrap(80, 24)}};\n    {% endif -%}\n    {% endfor %}\n'},
+    {'name': 'odeint-rows-by-batch', 'file': ODEINT, 'old': '    {% for r in ode.jac.rhs -%}\n    {% set neqns = ode.jac.nrow -%}\n    {% if r != "0.0" -%}\n    j({{ (loop.index0/neqns) | int }}, {{ loop.index0%neqns }}) = {{ r | stmwrap(80, 24)}};\n    {% endif -%}\n    {% endfor %}\n', 'new': '    {% for rowterms in ode.jac.rhs | batch(ode.jac.nrow) -%}\n    {% set irow = loop.index0 -%}\n    {% for r in rowterms -%}\n    {% if r != "0.0" -%}\n    j({{ irow }}, {{ loop.index0 }}) = {{ r | stmwrap(80, 24)}};\n    {% endif -%}\n    {% endfor -%}\n    {% endfor %}\n'},
+    {'name': 'derivative-terms-in-a-memo-dict-keyed-by-reactant', 'file': T, 'old': '            for specidx in rspecidx:\n                # df/dx, remove the dependency for current reactant\n                for ri in rspecidx:\n                    rsymcopy = rsym.copy()\n                    rsymcopy.remove(y[ri])\n                    term = f" - {\'*\'.join([f\'{rate_sym}[{rl}]\', *rsymcopy])}"\n                    jacrhs[specidx * n_eqns + ri] += term\n            for specidx in pspecidx:\n                for ri in rspecidx:\n                    rsymcopy = rsym.copy()\n                    rsymcopy.remove(y[ri])\n                    term = f" + {\'*\'.join([f\'{rate_sym}[{rl}]\', *rsymcopy])}"\n                    jacrhs[specidx * n_eqns + ri] += term\n', 'new': '            dflux = {}\n            for ri in rspecidx:\n                if ri not in dflux:\n                    rsymcopy = rsym.copy()\n                    rsymcopy.remove(y[ri])\n                    dflux[ri] = "*".join([f"{rate_sym}[{rl}]", *rsymcopy])\n            for specidx in rspecidx:\n                rowstart = specidx * n_eqns\n                for ri in rspecidx:\n                    jacrhs[rowstart + ri] += " - " + dflux[ri]\n            for specidx in pspecidx:\n                rowstart = specidx * n_eqns\n                for ri in rspecidx:\n                    jacrhs[rowstart + ri] += " + " + dflux[ri]\n'},
+    {'name': 'loss-and-gain-rows-walked-as-one-signed-chain', 'edits': [{'file': T, 'old': 'from pathlib import Path\n', 'new': 'from itertools import chain, repeat\nfrom pathlib import Path\n'}, {'file': T, 'old': '            for specidx in rspecidx:\n                # df/dx, remove the dependency for current reactant\n                for ri in rspecidx:\n                    rsymcopy = rsym.copy()\n                    rsymcopy.remove(y[ri])\n                    term = f" - {\'*\'.join([f\'{rate_sym}[{rl}]\', *rsymcopy])}"\n                    jacrhs[specidx * n_eqns + ri] += term\n            for specidx in pspecidx:\n                for ri in rspecidx:\n                    rsymcopy = rsym.copy()\n                    rsymcopy.remove(y[ri])\n                    term = f" + {\'*\'.join([f\'{rate_sym}[{rl}]\', *rsymcopy])}"\n                    jacrhs[specidx * n_eqns + ri] += term\n', 'new': '            changes = list(chain(zip(repeat(" - "), rspecidx), zip(repeat(" + "), pspecidx)))\n            for sign, specidx in changes:\n                for ri in rspecidx:\n                    rsymcopy = rsym.copy()\n                    rsymcopy.remove(y[ri])\n                    jacrhs[specidx * n_eqns + ri] += sign + "*".join([f"{rate_sym}[{rl}]", *rsymcopy])\n'}]},
     {"name": "derivative-terms-precomputed-per-reactant", "file": T, "old": '            for specidx in rspecidx:\n                # df/dx, remove the dependency for current reactant\n                for ri in rspecidx:\n                    rsymcopy = rsym.copy()\n                    rsymcopy.remove(y[ri])\n                    term = f" - {\'*\'.join([f\'{rate_sym}[{rl}]\', *rsymcopy])}"\n                    jacrhs[specidx * n_eqns + ri] += term\n            for specidx in pspecidx:\n                for ri in rspecidx:\n                    rsymcopy = rsym.copy()\n                    rsymcopy.remove(y[ri])\n                    term = f" + {\'*\'.join([f\'{rate_sym}[{rl}]\', *rsymcopy])}"\n                    jacrhs[specidx * n_eqns + ri] += term\n',
      "new": '            dterms = []\n            for ri in rspecidx:\n                rsymcopy = rsym.copy()\n                rsymcopy.remove(y[ri])\n                dterms.append((ri, "*".join([f"{rate_sym}[{rl}]", *rsymcopy])))\n            for specidx in rspecidx:\n                for ri, dterm in dterms:\n                    jacrhs[specidx * n_eqns + ri] += f" - {dterm}"\n            for specidx in pspecidx:\n                for ri, dterm in dterms:\n                    jacrhs[specidx * n_eqns + ri] += f" + {dterm}"\n'},
     {"name": "derivative-terms-by-helper-function-and-zip", "edits": [
